@@ -369,7 +369,7 @@ func (c *FnCtx) execCall(x *ssa.Call, common *ssa.CallCommon, st *State, reach *
 			c.abort("call to %s, whose contract has no frame", spec.Name)
 			return
 		}
-		c.havocEverything(st)
+		c.pendingHavocAll = true // applied by applyContract once the preconditions have been checked
 	}
 	// closures handed to a callee under contract may be run by it: what they write becomes arbitrary
 	c.havocClosureWrites(common, st)
@@ -463,6 +463,10 @@ func (c *FnCtx) applyContract(spec *FuncSpec, sig *types.Signature, names []stri
 		}
 		c.oblige("pre", fmt.Sprintf("%s.%d", calleeName, i+1), *reach, tv.t, "precondition of "+spec.Name+": "+cl.Text)
 		c.assume(*reach, tv.t)
+	}
+	if c.pendingHavocAll {
+		c.pendingHavocAll = false
+		c.havocEverything(st)
 	}
 	// modifies: all targets are evaluated in the pre-state, then havocked
 	var targets []TV
